@@ -1,5 +1,15 @@
 package dsim
 
+import (
+	"fmt"
+	"io"
+	"strings"
+	"sync"
+
+	"github.com/fiorix/go-diameter/v4/diam"
+	"github.com/fiorix/go-diameter/v4/diam/datatype"
+)
+
 // C16 — answers mirror the request they answer. Scenarios: Message.Answer on
 // live TCP-like connections (server world), on SCTP associations (SCTP world),
 // and the state machine's CEA / DWA (sm world); registered as they are built.
@@ -8,12 +18,13 @@ var c16 = &Property{
 	ID: "C16", Level: "exploration",
 	Rule: "each run draws request headers with both identifiers from {0, 1, 2^31, 2^32-1, random}, every flag byte with R set, commands/applications of the dictionary, result codes {none, 2001, 3xxx, 5xxx, 2^32-1} and (SCTP) inbound streams 0-15, delivered in drawn fragments to handlers that answer through Message.Answer + WriteTo, or to the state machine (CER, DWR); " +
 		"non-trivial = at least one request with a boundary identifier or non-default flag byte was answered; distinct = hash of (scenario, action kinds, header classes)",
-	Real:    append([]string{"Message.Answer, NewMessage, WriteTo/WriteToStream, response.WriteStream", "sm.successCEA / errorCEA / handleDWR (sm scenarios)", "diam.SCTPConn demultiplexer and WriteStream (SCTP scenarios)"}, srvReal...),
-	Stubbed: srvStub,
-	Assume:  []string{"quantified over inputs only; the schedule dimension (fragmentation, parked handlers, stream interleaving) is exercised but is not what decides the property"},
-	MustProbes: []string{"writer-stream-pinned", "retry-while-reader-moved-on", "deferred-answer"},
+	Real:       append([]string{"Message.Answer, NewMessage, WriteTo/WriteToStream, response.WriteStream", "sm.successCEA / errorCEA / handleDWR (sm scenarios)", "diam.SCTPConn demultiplexer and WriteStream (SCTP scenarios)"}, srvReal...),
+	Stubbed:    srvStub,
+	Assume:     []string{"quantified over inputs only; the schedule dimension (fragmentation, parked handlers, stream interleaving) is exercised but is not what decides the property"},
+	MustProbes: []string{"writer-stream-pinned", "retry-while-reader-moved-on", "deferred-answer", "late-answer-to-ended-connection"},
 	Scenarios: []*Scenario{
 		{Name: "tcp-answer", Weight: 4, Bubble: true, Run: c16Tcp},
+		{Name: "answer-through-the-conn-of-an-ended-connection", Weight: 1, Bubble: true, Run: c16StaleConn},
 		{Name: "sweep-headers", Bubble: true, Run: c16Sweep, SweepN: c16SweepN, QuickSweep: true, Exhaustive: true,
 			SweepNote: "both identifiers over {0, 1, 2^31, 2^32-1} x every flag byte with R set (128) x result codes {none, 2001, 3004, 5012, 2^32-1}: 10 240 requests answered through Message.Answer on a live connection"},
 		{Name: "sm-cea-dwa", Weight: 3, Bubble: true, Run: func(e *Env) { smaRun(e, "C16") }},
@@ -21,3 +32,136 @@ var c16 = &Property{
 }
 
 func init() { register(c16) }
+
+// c16StaleConn: a worker goroutine still holds the Conn (and the request) of a connection that
+// has ended meanwhile, and answers now. Whatever the library recycles, that answer does not reach
+// any other peer: the connections accepted afterwards receive the answers to their own requests
+// and nothing else, and closing the stale Conn closes nobody else's transport.
+func c16StaleConn(e *Env) {
+	t := e.T
+	e.TrustWait = true
+	lis := newSimListener(e)
+	mux := diam.NewServeMux()
+	type kept struct {
+		c diam.Conn
+		m *diam.Message
+	}
+	var mu sync.Mutex
+	var held []kept
+	mux.HandleFunc("ALL", func(c diam.Conn, m *diam.Message) {
+		tag := string(m.AVP[0].Data.Serialize())
+		if strings.HasPrefix(tag, "A") {
+			// handed to a worker; answered later
+			mu.Lock()
+			held = append(held, kept{c, m})
+			mu.Unlock()
+			return
+		}
+		a := m.Answer(2001)
+		a.NewAVP(avpSimOctets, 0, 0, datatype.OctetString(tag))
+		a.WriteTo(c)
+	})
+	srv := &diam.Server{Handler: mux, Dict: simDict()}
+	go srv.Serve(lis)
+	req := func(tag string, hbh uint32) RefMsg {
+		return RefMsg{Cmd: 900, Flags: 0x80 | byte(t.Draw(2))<<6, HbH: hbh, E2E: hbh ^ 0x5555, AVPs: []RefAVP{{Code: avpSimOctets, Data: []byte(tag)}}}
+	}
+	a := newSimConn(e, "A", drawAddr(t, 3868), drawAddr(t, 45001))
+	lis.Connect(a)
+	na := t.Range(1, 3)
+	for i := 0; i < na; i++ {
+		a.Deliver(req(fmt.Sprintf("A%d", i), uint32(0xa0+i)).Bytes())
+	}
+	e.Quiesce()
+	// A ends
+	switch t.Draw(3) {
+	case 0:
+		a.EndRead(io.EOF, false)
+	case 1:
+		a.EndRead(errSimReset, true)
+	default:
+		mu.Lock()
+		c := held[0].c
+		mu.Unlock()
+		c.Close()
+	}
+	e.Quiesce()
+	if !a.Closed() {
+		e.Harness("connection A did not end")
+	}
+	// newcomers
+	var others []*SimConn
+	nb := t.Range(1, 3)
+	for i := 0; i < nb; i++ {
+		sc := newSimConn(e, fmt.Sprintf("B%d", i), drawAddr(t, 3868), drawAddr(t, 45010+i))
+		lis.Connect(sc)
+		others = append(others, sc)
+	}
+	defer func() {
+		for _, sc := range others {
+			sc.EndRead(io.EOF, false)
+		}
+		lis.Close()
+		e.Quiesce()
+	}()
+	e.Quiesce()
+	reqs := map[string]RefMsg{}
+	for i, sc := range others {
+		r := req(fmt.Sprintf("B%d", i), uint32(0xb0+i))
+		reqs[sc.Name] = r
+		sc.Deliver(r.Bytes())
+	}
+	e.Quiesce()
+	// now the worker answers A's requests through the Conn it still holds
+	mu.Lock()
+	hs := append([]kept{}, held...)
+	mu.Unlock()
+	if len(hs) == 0 {
+		e.Harness("no request of A was handed to the worker")
+	}
+	for _, h := range hs {
+		ans := h.m.Answer(2001)
+		ans.NewAVP(avpSimOctets, 0, 0, datatype.OctetString(h.m.AVP[0].Data.Serialize()))
+		ans.WriteTo(h.c)
+		if t.Chance(1, 3) {
+			h.c.Close()
+		}
+	}
+	e.Quiesce()
+	e.Probe("late-answer-to-ended-connection")
+	e.NonTrivial()
+	for _, sc := range others {
+		if sc.Closed() {
+			e.Fail("C16/other-connection-closed-by-stale-conn", "closing the Conn of the ended connection A closed the transport of %s", sc.Name)
+			return
+		}
+		r := reqs[sc.Name]
+		rest := sc.Written()
+		n := 0
+		for len(rest) > 0 {
+			msg, r2, st := refFrame(rest)
+			if st != "ok" {
+				e.Fail("C16/unparsable-output", "%s received bytes that do not frame", sc.Name)
+				return
+			}
+			rm, err := refParse(msg)
+			if err != nil {
+				e.Fail("C16/unparsable-output", "%s: %v", sc.Name, err)
+				return
+			}
+			n++
+			if rm.HbH != r.HbH || rm.E2E != r.E2E {
+				e.Fail("C16/answer-mismatch/foreign-answer", "%s sent one request (hop-by-hop %#x) and received an answer with hop-by-hop %#x: the answer to a request of the ended connection A", sc.Name, r.HbH, rm.HbH)
+				return
+			}
+			if !mirrorHeader("C16", "answer", e, r, &rm) {
+				return
+			}
+			rest = r2
+		}
+		if n != 1 {
+			e.Fail("C16/answer-count", "%s sent one request and received %d answers", sc.Name, n)
+			return
+		}
+	}
+}
